@@ -675,6 +675,67 @@ def check_stored_budget_not_wrapped(ctx, F):
     ctx.extra['stored_wrapping_budgets'] = n
 
 
+def check_table_growth_bounded(ctx, F):
+    """The fixed-point validator hands every entry to a callback *before* it knows whether the list is valid (the total is
+    checked after the last entry).  A callback that sizes a table by the entry (`lookup_table.resize(len + probability, ..)`)
+    therefore allocates for invalid input too: one oversized entry asks for terabytes and aborts the process (no error value,
+    no panic), a few thousand invalid 16-bit entries allocate hundreds of megabytes.  Rule: in every such callback the new
+    length is decided to be at most 1 << PRECISION before the table grows - by a decision on the path, or by an
+    `Option::filter` on the checked sum whose predicate compares with 1 << PRECISION."""
+    fp = anchors.validators(F).get('fixed_point')
+    if fp is None:
+        return
+    n = 0
+    users = [c for c in F.bodies if c.promoted is None and not is_test(c) and c.dk in ('Fn', 'AssocFn') and any((callee(t) or {}).get('def') == fp.defpath for _, t in c.calls())]
+    is_pow = lambda t: isinstance(t, tuple) and t and ((t[0] == 'bin' and t[1] == 'Shl' and t[3] == ('c', 'PRECISION') and (t[2] == sym.mk_int(1) or (t[2][0] == 'k' and t[2][1] == 'one'))) or (t[0] == 'call' and str(t[1]).endswith('wrapping_pow2')))
+    for u in users:
+        for cb in F.closures_of(u):
+            try:
+                ev, paths = rules.evaluate(cb)
+            except sym.TooManyPaths:
+                continue
+            sites = {}
+            for r in paths or []:
+                for i, e in enumerate(r.events):
+                    if e['kind'] != 'call' or not e['callee'].endswith('::resize') or len(e['args']) < 2:
+                        continue
+                    target = effects.strip_uid(e['args'][1])
+                    # does the new length depend on the entry (an argument of the callback)?
+                    if not sym.contains(target, lambda x: isinstance(x, tuple) and x and (x[0] == 'arg' or (x[0] == 'in' and isinstance(x[1][0], int) and x[1][0] >= 2))):
+                        continue
+                    ok = False
+                    for t, v, _ in r.preds[:rules.preds_before(r, i)]:
+                        if isinstance(v, tuple) or t[0] != 'bin' or t[1] not in ('Le', 'Lt', 'Ge', 'Gt'):
+                            continue
+                        op = t[1] if v else {'Lt': 'Ge', 'Le': 'Gt', 'Gt': 'Le', 'Ge': 'Lt'}[t[1]]
+                        a, b_ = effects.strip_uid(t[2]), effects.strip_uid(t[3])
+                        if (op in ('Le', 'Lt') and is_pow(b_) and sym.contains(target, lambda x: x == a)) or (op in ('Ge', 'Gt') and is_pow(a) and sym.contains(target, lambda x: x == b_)):
+                            ok = True
+                    for x in sym.subterms(target):
+                        if isinstance(x, tuple) and x and x[0] == 'call' and str(x[1]).endswith('Option::<T>::filter') and len(x[2]) == 2 and x[2][1][0] == 'agg' and isinstance(x[2][1][1], tuple) and x[2][1][1][0] == 'closure':
+                            fb = F.by_def.get(x[2][1][1][1])
+                            if fb is not None:
+                                _, fpaths = rules.evaluate(fb)
+                                rets = [q for q in fpaths or [] if q.end == 'return']
+                                if len(rets) == 1 and rets[0].ret is not None and rets[0].ret[0] == 'bin' and rets[0].ret[1] in ('Le', 'Lt', 'Ge', 'Gt'):
+                                    c = rets[0].ret
+                                    if (c[1] in ('Le', 'Lt') and is_pow(c[3])) or (c[1] in ('Ge', 'Gt') and is_pow(c[2])):
+                                        ok = True
+                    k = e['span'].split('-')[0]
+                    sites[k] = sites.get(k, True) and ok
+            for j, (where, ok) in enumerate(sorted(sites.items())):
+                n += 1
+                ctx.touch(cb)
+                key = 'R12/table-growth-bounded/%s#%d' % (cb.defpath, j)
+                role = 'a table sized by an entry that is not validated yet grows to at most 1 << PRECISION'
+                if ok:
+                    ctx.ok('R12', role, cb.defpath, 'the new length is decided <= 1 << PRECISION before the resize', key=key)
+                else:
+                    ctx.bad('R12', role, cb.defpath, 'the callback of the fixed-point validator resizes a table to a length computed from the entry, and nothing bounds that length before the allocation: the validator checks the total only after the last entry, so an oversized entry (or a long invalid list) makes the constructor allocate without limit - the process aborts on the failed allocation instead of returning Err(())', key=key, loc=where)
+    ctx.extra['validator_callback_resizes'] = n
+    ctx.floor('R12', 'floor: validator callbacks that size a table', 'stream::model::categorical', n, 2, 'only %d callbacks of the fixed-point validator resize a table (the two lookup constructors are expected)' % n, key='R12/floor/table-growth')
+
+
 def check_sibling_agreement(ctx, F):
     _norm_tests = {}
     ingesters = []
@@ -1132,6 +1193,7 @@ def run(ctx):
     check_inferred_probability(ctx, F)
     check_zero_entry_counted(ctx, F)
     check_stored_budget_not_wrapped(ctx, F)
+    check_table_growth_bounded(ctx, F)
     check_scaled_cumulative_clamped(ctx, F)
     check_duplicate_symbols(ctx, F)
     check_nondegenerate_support(ctx, F)
